@@ -204,11 +204,16 @@ func cmdCheck(repo, prop, tier string) int {
 			continue
 		}
 		// a function is proved on its own for this property when one of its postconditions belongs to it
+		picked := false
 		for _, cl := range ct.Clauses {
 			if (cl.Kind == "ensures" || cl.Kind == "canary") && inProps(ct.clauseProps(cl), prop) {
 				keys = append(keys, k)
+				picked = true
 				break
 			}
+		}
+		if !picked && ct.WritesFresh && inProps(ct.WritesProps, prop) {
+			keys = append(keys, k)
 		}
 	}
 	sort.Strings(keys)
